@@ -160,6 +160,39 @@ def r_tree_ident(ck: Checker) -> None:
         ck.incomplete("R-TREE-IDENT", None, None, f"only {n} node comparisons found (5 expected)")
 
 
+def r_tree_keyerror_kept(ck: Checker) -> None:
+    """The KeyError of a table subscription is how every Tree query reports a node outside the tree.  Positive pattern: a handler that
+    catches KeyError (or wider) around such a lookup and leaves with anything but a KeyError."""
+    c = ck.repo.cls(TREE, "Tree")
+    n = 0
+    for st in c.node.body:
+        if not isinstance(st, ast.FunctionDef) or st.name == "__init__":
+            continue
+        n += 1
+        what = f"Tree.{st.name}: a KeyError raised by a lookup of a node outside the tree reaches the caller as KeyError"
+        bad = None
+        for t in [x for x in ast.walk(st) if isinstance(x, ast.Try)]:
+            looks = any((isinstance(x, ast.Subscript) and isinstance(x.value, ast.Attribute) and x.value.attr.startswith("_node_to")) or
+                        (isinstance(x, ast.Call) and isinstance(x.func, ast.Attribute) and x.func.attr in ("get_parent", "get_parent_info", "get_ancestors", "get_xpath", "get_depth"))
+                        for b in t.body for x in ast.walk(b))
+            if not looks:
+                continue
+            for h in t.handlers:
+                names = {"BaseException"} if h.type is None else {(dotted(x) or "").split(".")[-1] for x in ([h.type] if not isinstance(h.type, ast.Tuple) else h.type.elts)}
+                if not names & {"KeyError", "LookupError", "Exception", "BaseException"}:
+                    continue
+                raises = [r for b in h.body for r in ast.walk(b) if isinstance(r, ast.Raise)]
+                keeps = bool(raises) and all(r.exc is None or (h.name and norm(r.exc) == h.name) or "KeyError" in norm(r.exc) for r in raises) \
+                    and isinstance(h.body[-1], ast.Raise)
+                if not keeps:
+                    bad = (h, sorted(names)[0])
+        if bad:
+            ck.violation("R-TREE-RAISE", (c.mod.rel, f"Tree.{st.name}"), bad[0], what, positive=True,
+                         construct=f"Tree.{st.name}: `except {bad[1]}` around a table lookup leaves with {norm(bad[0].body[-1])[:50]} — a node outside the tree is no longer reported with KeyError")
+        else:
+            ck.holds("R-TREE-RAISE", (c.mod.rel, f"Tree.{st.name}"), st, what)
+
+
 def r_tree_raise(ck: Checker) -> None:
     for q, table in (("Tree.get_xpath", "self._node_to_xpath"), ("Tree.get_parent", "self._node_to_parent_info"),
                      ("Tree.get_parent_info", "self._node_to_parent_info")):
@@ -312,6 +345,14 @@ def r_tree_type(ck: Checker) -> None:
         return
     lp = loops[0]
     a = norm(lp.target)
+    early = [r for st in body[:body.index(lp)] for r in ast.walk(st) if isinstance(r, ast.Return)]
+    if early:
+        par_ = {id(c): p_ for st in body for p_ in ast.walk(st) for c in ast.iter_child_nodes(p_)}
+        cond = par_.get(id(early[0]))
+        ck.violation("R-TREE-TYPE", f, early[0], "get_first_ancestor_of_type answers from the ancestors of the node (every path to `return None` has searched them)", positive=True,
+                     construct=f"get_first_ancestor_of_type: returns {norm(early[0].value) if early[0].value is not None else 'None'} before the ancestors are searched"
+                     + (f" when `{norm(cond.test)[:60]}`" if isinstance(cond, ast.If) else "") + " — also for a node outside the tree, which must raise KeyError")
+        return
     leaves = decision_tree(lp.body)
     clsv = None
     bad = []
@@ -405,6 +446,7 @@ def run(ck: Checker) -> None:
     ck.guard("R-TREE-FILL", lambda: r_tree_fill(ck))
     ck.guard("R-TREE-IDENT", lambda: r_tree_ident(ck))
     ck.guard("R-TREE-RAISE", lambda: r_tree_raise(ck))
+    ck.guard("R-TREE-RAISE", lambda: r_tree_keyerror_kept(ck))
     ck.guard("R-TREE-CHAIN", lambda: r_tree_chain(ck))
     ck.guard("R-TREE-TYPE", lambda: r_tree_type(ck))
     ck.guard("R-TREE-STATE", lambda: r_tree_state(ck))
@@ -415,6 +457,8 @@ def run(ck: Checker) -> None:
     ck.guard("R-PRESENCE", lambda: T.r_child_abc(ck))
     ck.guard("R-TYPES-CACHE", lambda: T.r_types_cache(ck))
     ck.guard("R-REINSTALL", lambda: T.r_reinstall(ck))
+    from . import state_rules as S_
+    ck.guard("R-TREE-IDENT", lambda: S_.r_unstable_key(ck, "R-TREE-IDENT", [("pyoak.tree", "Tree"), ("pyoak.node", "ASTNode.to_tree")], "a Tree describes the root it was built from"))
     from .c05 import r_traversals
     ck.guard("R-WORKLIST", lambda: r_traversals(ck))  # the tables hold what the traversal visits  # the tables are filled from dfs(): a child value is never classified by an ABC test
     ck.require_count("R-TREE-FILL", 5)
